@@ -1811,7 +1811,7 @@ func (schema *Schema) visitJSONArray(settings *schemaValidationSettings, value [
 	lenValue := int64(len(value))
 
 	// "minItems"
-	if v := schema.MinItems; v != 0 && lenValue < int64(v) {
+	if v := schema.MinItems; v != 0 && uint64(lenValue) < v {
 		if settings.failfast {
 			return errSchema
 		}
@@ -1829,7 +1829,7 @@ func (schema *Schema) visitJSONArray(settings *schemaValidationSettings, value [
 	}
 
 	// "maxItems"
-	if v := schema.MaxItems; v != nil && lenValue > int64(*v) {
+	if v := schema.MaxItems; v != nil && uint64(lenValue) > *v {
 		if settings.failfast {
 			return errSchema
 		}
@@ -1941,7 +1941,7 @@ func (schema *Schema) visitJSONObject(settings *schemaValidationSettings, value 
 	lenValue := int64(len(value))
 
 	// "minProperties"
-	if v := schema.MinProps; v != 0 && lenValue < int64(v) {
+	if v := schema.MinProps; v != 0 && uint64(lenValue) < v {
 		if settings.failfast {
 			return errSchema
 		}
@@ -1959,7 +1959,7 @@ func (schema *Schema) visitJSONObject(settings *schemaValidationSettings, value 
 	}
 
 	// "maxProperties"
-	if v := schema.MaxProps; v != nil && lenValue > int64(*v) {
+	if v := schema.MaxProps; v != nil && uint64(lenValue) > *v {
 		if settings.failfast {
 			return errSchema
 		}
